@@ -58,6 +58,15 @@ func (enc *Encoder) WriteBigFloat(f *big.Float) {
 		enc.WriteNil()
 		return
 	}
+	if f.IsInf() {
+		// (d+Inf; is not a number of the format)
+		if f.Signbit() {
+			enc.buf = append(enc.buf, TagInfinity, TagNeg)
+		} else {
+			enc.buf = append(enc.buf, TagInfinity, TagPos)
+		}
+		return
+	}
 	enc.buf = append(enc.buf, TagDouble)
 	enc.buf = f.Append(enc.buf, 'g', -1)
 	enc.buf = append(enc.buf, TagSemicolon)
